@@ -269,6 +269,11 @@ pub fn c13(cx: &Cx) -> i32 {
 
 pub fn c20(cx: &Cx) -> i32 {
     let mut rep = cx.report("C20");
+    // a used field type that mentions a parameter must be bounded by the trait, else the generated impl does not type-check
+    // although derive_ex reported nothing (the C03 rules, as a necessary condition)
+    crate::props_bounds::run_bounds(cx, &mut rep, &["ES-use-bound"]);
+    crate::misc::wcb_rule(cx, &mut rep);
+    crate::misc::mentions_param_rule(cx, &mut rep);
     let coll = run_hyg(cx, &mut rep, &["TP-parse", "TP-zero-arm-match", "TP-nested-fn-types", "TP-free-fn-self", "TP-binders-generic"]);
     // generic / lifetime binders with fixed names clash with the user's parameters (E0403 / E0496): the C13 rule restricted to those kinds
     let mut n = 0;
@@ -346,6 +351,11 @@ pub fn c12(cx: &Cx) -> i32 {
         let got = ct.tables[t].as_ref().and_then(|tb| tb.decs.get(tb.codes[0] as usize).copied());
         rep.check(got == Some(XDec::Frag { sel: Sel::Default, rev: false }), "DM-zero-state", &format!("CompareOp({})", TRAITS[t]), "no-attributes", &format!("without helper attributes {} does not compare every field with the field's own impl in declaration order: {:?}", TRAITS[t], got.map(|d| d.show())), "item_type/compare_op.rs", json!({}));
     }
+    // without attributes the where-clause is the default one: every used field type that mentions a parameter is bounded
+    // by the trait (else the impl does not type-check for generic types the standard derive accepts) - the C03 rules
+    crate::props_bounds::run_bounds(cx, &mut rep, &["ES-use-bound"]);
+    crate::misc::wcb_rule(cx, &mut rep);
+    crate::misc::mentions_param_rule(cx, &mut rep);
     // shape rules on all instances incl. zero / one element shapes
     let coll = run_hyg(cx, &mut rep, &["TP-parse", "TP-zero-arm-match"]);
     let shapes: BTreeSet<String> = coll.iter().map(|c| c.shape.clone()).collect();
